@@ -74,18 +74,24 @@ Theorem C17_canonical_paths_and_request_types : forall cfg s,
 Proof. exact emitted_stubs_canonical. Qed.
 Print Assumptions C17_canonical_paths_and_request_types.
 
-(* the response type is canonical (None exactly for google.protobuf.Empty) for every stub but WaitOperation ... *)
-Theorem C17_canonical_response_types_partial : forall s,
-  In s STUB_TMPL -> s_name s <> "WaitOperation" ->
-  exists r, In r CANON /\ cr_method r = s_name s /\ resp_canonical s r = true.
-Proof. exact canonical_response_types_partial. Qed.
-Print Assumptions C17_canonical_response_types_partial.
+(* ... and deserializes the canonical response type (None exactly for google.protobuf.Empty) — every method, WaitOperation
+   included since /repo e72fa5d; the former witness is driven over gRPC on every run *)
+Theorem C17_canonical_response_types : forall cfg s,
+  In s (grpc_stubs cfg) -> exists r, In r CANON /\ cr_method r = s_name s /\ resp_canonical s r = true.
+Proof. exact emitted_stubs_canonical_response. Qed.
+Print Assumptions C17_canonical_response_types.
 
-(* ... whose stub has no response deserializer although the canonical response is google.longrunning.Operation *)
-Theorem C17_canonical_response_types_refuted :
-  exists s r, In s STUB_TMPL /\ In r CANON /\ cr_method r = s_name s /\ resp_canonical s r = false.
-Proof. exact canonical_response_types_refuted. Qed.
-Print Assumptions C17_canonical_response_types_refuted.
+(* REST: the request carries a body exactly when the binding that matched has one, whatever the rule's other bindings are *)
+Theorem C17_rest_body_follows_matched_binding : forall opts o,
+  In o opts -> rest_sends_body opts o = has_body o.
+Proof. exact rest_body_follows_matched_binding. Qed.
+Print Assumptions C17_rest_body_follows_matched_binding.
+
+Example C17_example_mixed_bindings :
+  let opts := rule_options (mkRule "google.iam.v1.IAMPolicy.GetIamPolicy" (mkB "get" "/v1/{resource=a/*}:get" "") [mkB "post" "/v1/{resource=b/*}:get" "*"]) in
+  rest_body_defined opts = true /\ map (rest_sends_body opts) opts = [false; true].
+Proof. exact ex_mixed_bindings. Qed.
+Print Assumptions C17_example_mixed_bindings.
 
 (* the routing header of every client mixin method names the resource-name field of the canonical request *)
 Theorem C17_canonical_routing_fields : forall t,
